@@ -395,6 +395,33 @@ Definition fresh_failure_or_known_label (h : list event) : bool := fresh_or_know
 (* ------------------------------------------------------------------ *)
 (* Part 3: CassetteWriter queue and the writer loops                   *)
 (* ------------------------------------------------------------------ *)
+Fixpoint before_eq (s : str) : str :=
+  match s with [] => [] | x :: s' => if x =? 61 then [] else x :: before_eq s' end.
+
+(* ---- http.cookies.SimpleCookie as used by _extract_cookies (cassettes.py:464-479) ----
+   _extract_cookies(headers) = [cookie for items in headers for item in items for cookie in _cookie_to_har(item)]:
+   items is one header VALUE (a str), so item is one CHARACTER of it: SimpleCookie sees one-character strings. *)
+Definition pieces_now (v : str) : list str := map (fun c => [c]) v.
+(* sentinel: what a repaired comprehension (for item in headers) would hand to SimpleCookie *)
+Definition pieces_whole (v : str) : list str := [v].
+
+(* http.cookies._LegalChars, and the further characters the key pattern of _CookiePattern matches *)
+Definition cookie_legal (c : N) : bool :=
+  is_upper c || is_lower c || is_digit c || mem c [33;35;36;37;38;39;42;43;45;46;94;95;96;124;126;58].
+Definition cookie_special (c : N) : bool := mem c [47;64;44;40;41;123;125;63;60;62].   (* / @ , ( ) { } ? < > *)
+(* one  key=value  fragment: Morsel.set raises CookieError (Illegal key) *)
+Definition fragment_error (f : str) : bool :=
+  let f := strip_left [32] f in
+  let k := before_eq f in
+  mem 61 f && negb (match k with [] => true | c :: _ => c =? 36 end)
+  && forallb (fun c => cookie_legal c || cookie_special c) k && existsb cookie_special k.
+(* SimpleCookie(piece) raises CookieError.  Exact (false) for pieces shorter than 3 characters - a key, = and the
+   illegal character need three; for longer pieces an approximation validated per run on the generated shapes *)
+Definition cookie_error (p : str) : bool :=
+  Nat.leb 3 (length p) && existsb fragment_error (split_on 59 p).
+(* the morsels SimpleCookie finds in a one-character string: none *)
+Definition morsels_char (c : N) : list (str * str) := [].
+
 (* what Python makes of response.encoding when the payload is decoded *)
 Inductive codec :=
 | CodecOk          (* None, or a text codec Python knows, or the payload is empty (no lookup at all) *)
@@ -406,8 +433,13 @@ Record inter := {
   i_id : N;                 (* case id: key of recorder.interactions *)
   i_userinfo : bool;        (* the request URL has a userinfo part *)
   i_response : bool;        (* a response was received (record_response vs record_request) *)
-  i_codec : codec
+  i_codec : codec;
+  i_cookie_values : list str   (* the values of the request Cookie header *)
 }.
+Definition s_filtered : str := [91;70;105;108;116;101;114;101;100;93].   (* [Filtered] *)
+(* headers.get(Cookie) after sanitize_value: a sensitive key holding a list becomes [replacement] *)
+Definition seen_cookies (sanitize : bool) (i : inter) : list str :=
+  if sanitize then match i_cookie_values i with [] => [] | _ => [s_filtered] end else i_cookie_values i.
 Inductive fmt := VCR | HAR.
 Record wconf := { w_fmt : fmt; w_sanitize : bool; w_preserve : bool }.
 
@@ -425,8 +457,14 @@ Definition entry_raises_old (w : wconf) (i : inter) : bool :=
    still kills the thread *)
 Definition entry_raises (w : wconf) (i : inter) : bool :=
   match w_fmt w with
-  | HAR => false
+  | HAR => existsb cookie_error (flat_map pieces_now (seen_cookies (w_sanitize w) i))      (* 434: _extract_cookies, uncaught *)
   | VCR => negb (w_preserve w) && i_response i && match i_codec i with CodecRaises => true | _ => false end
+  end.
+(* sentinel: the same with the comprehension iterating over header values instead of characters *)
+Definition entry_raises_whole (w : wconf) (i : inter) : bool :=
+  match w_fmt w with
+  | HAR => existsb cookie_error (flat_map pieces_whole (seen_cookies (w_sanitize w) i))
+  | VCR => entry_raises w i
   end.
 
 Inductive qmsg := QInit | QProcess (ints : list inter) | QFinalize.
@@ -476,6 +514,7 @@ Definition complete (ids : list N) : list (N * bool) := map (fun i => (i, true))
 Definition written : wconf -> list cevent -> list (N * bool) * wend := written_gen entry_raises.
 Definition written_old : wconf -> list cevent -> list (N * bool) * wend := written_gen entry_raises_old.
 Definition no_entry_raises : wconf -> list cevent -> bool := no_entry_raises_gen entry_raises.
+Definition written_whole : wconf -> list cevent -> list (N * bool) * wend := written_gen entry_raises_whole.
 
 (* meta is None  (cassettes.py:224-267): the text between the quoted status and recorded_at *)
 Inductive meta_shape := MetaNone | MetaFuzzing | MetaCoverage.
@@ -516,6 +555,11 @@ Record xchg := { x_id : N; x_req : xreq; x_resp : option xresp; x_checks : optio
 
 Definition s_content_type : str := [67;111;110;116;101;110;116;45;84;121;112;101].   (* Content-Type *)
 Definition s_location : str := [76;111;99;97;116;105;111;110].                        (* Location *)
+Definition s_cookie : str := [67;111;111;107;105;101].                                (* Cookie *)
+Definition s_set_cookie : str := [83;101;116;45;67;111;111;107;105;101].               (* Set-Cookie *)
+(* _extract_cookies(headers.get(name, [])) *)
+Definition har_cookies (name : str) (d : hdict) : list (str * str) :=
+  flat_map (fun v => flat_map morsels_char v) (match hget name d with Some vs => vs | None => [] end).
 Definition s_utf8_dash : str := [117;116;102;45;56].                                  (* utf-8 *)
 Definition s_utf8 : str := [117;116;102;56].                                          (* utf8 *)
 Definition s_none : str := [78;111;110;101].                                          (* None *)
@@ -531,10 +575,10 @@ Definition query_of (uri : str) : str := after_char 63 (before_char 35 uri).
 (* ---- HAR (cassettes.py:358-435) ---- *)
 Record har_resp := {
   hr_status : N; hr_text : str; hr_version : str; hr_headers : list (str * str);
-  hr_mime : str; hr_content : option payload; hr_base64 : bool; hr_size : N; hr_redirect : str }.
+  hr_mime : str; hr_content : option payload; hr_base64 : bool; hr_size : N; hr_redirect : str; hr_cookies : list (str * str) }.
 Record hentry := {
   he_method : str; he_url : str; he_query : str; he_version : str; he_headers : list (str * str);
-  he_post : option (str * payload); he_body_size : N; he_resp : option har_resp }.
+  he_post : option (str * payload); he_body_size : N; he_resp : option har_resp; he_cookies : list (str * str) }.
 
 (* the locals of har_writer that survive from one loop iteration to the next *)
 Record hvars := { hv_post : option (str * payload); hv_resp : option har_resp; hv_version : str; hv_headers : list (str * str) }.
@@ -551,7 +595,8 @@ Definition har_resp_of (preserve : bool) (p : xresp) : har_resp :=
                    else Some (Utf8Replace (p_content p));
      hr_base64 := preserve;                                         (* 383: content is never None *)
      hr_size := blen (p_content p);
-     hr_redirect := first_of (hget s_location (p_headers p)) |}.
+     hr_redirect := first_of (hget s_location (p_headers p));
+     hr_cookies := har_cookies s_set_cookie (p_headers p) |}.
 
 Definition har_step (preserve : bool) (v : hvars) (x : xchg) : hvars * hentry :=
   (* 364-372: if body is not None: post_data = ... else: post_data = None *)
@@ -569,7 +614,8 @@ Definition har_step (preserve : bool) (v : hvars) (x : xchg) : hvars * hentry :=
   (v3, {| he_method := upper_ascii (q_method (x_req x)); he_url := q_uri (x_req x); he_query := query_of (q_uri (x_req x)); he_version := hv_version v3;
           he_headers := hv_headers v3; he_post := hv_post v3;
           he_body_size := match q_body (x_req x) with Some b => blen b | None => 0 end;
-          he_resp := hv_resp v3 |}).
+          he_resp := hv_resp v3;
+          he_cookies := har_cookies s_cookie (q_headers (x_req x)) |}).
 
 Fixpoint har_loop (preserve : bool) (v : hvars) (xs : list xchg) : list hentry :=
   match xs with
@@ -584,7 +630,8 @@ Definition har_entry (preserve : bool) (x : xchg) : hentry :=
      he_headers := first_values (q_headers (x_req x));
      he_post := match q_body (x_req x) with Some b => Some (har_post_of preserve (x_req x) b) | None => None end;
      he_body_size := match q_body (x_req x) with Some b => blen b | None => 0 end;
-     he_resp := match x_resp x with Some p => Some (har_resp_of preserve p) | None => None end |}.
+     he_resp := match x_resp x with Some p => Some (har_resp_of preserve p) | None => None end;
+     he_cookies := har_cookies s_cookie (q_headers (x_req x)) |}.
 
 (* ---- VCR (cassettes.py:201-304) ---- *)
 Inductive vstatus := VSuccess | VFailure | VSkip | VError.
